@@ -15,6 +15,7 @@ import (
 	"time"
 
 	"go.nanomsg.org/mangos/v3"
+	"go.nanomsg.org/mangos/v3/protocol"
 	"go.nanomsg.org/mangos/v3/protocol/rep"
 	"go.nanomsg.org/mangos/v3/protocol/req"
 	"go.nanomsg.org/mangos/v3/protocol/respondent"
@@ -599,6 +600,8 @@ func init() {
 			runReqCrossDeadline(c, 0, 40, busy)
 		}
 		runReqSendDeadlineLeavesNothing(c, 40, 400)
+		runConcurrentDeadlines(c)
+		runPushFailNoPeersToggle(c)
 		runReqSendDeadlineLeavesNothing(c, 60, 0)
 		skipped := map[string]int{}
 		for _, r := range results {
@@ -717,5 +720,106 @@ func init() {
 		}
 		sort.Strings(ks)
 		c.Rep.Notes = append(c.Rep.Notes, fmt.Sprintf("%d scenarios over %d call sites; skipped: %s", len(all), len(w18sites()), strings.Join(ks, "; ")))
+	}
+}
+
+// Several goroutines blocked in the same kind of call on one socket, each with the socket's deadline, nothing arriving:
+// every one of them has its own deadline — each returns, with the time-out error no earlier than its deadline and no
+// later than the slack after it, however the calls overlap (C18: "never hanging beyond the deadline"; C11: calls of
+// different goroutines do not disturb one another).
+func runConcurrentDeadlines(c *Ctx) {
+	const dl = 80
+	type tgt struct {
+		site w18site
+		send bool
+	}
+	var tgts []tgt
+	for _, st := range w18sites() {
+		switch st.fam {
+		case "recv":
+			tgts = append(tgts, tgt{st, false})
+		case "send-q":
+			tgts = append(tgts, tgt{st, true})
+		}
+	}
+	type res struct {
+		name    string
+		i       int
+		err     error
+		elapsed time.Duration
+		done    bool
+	}
+	var mu sync.Mutex
+	var all []*res
+	var wg sync.WaitGroup
+	var socks []mangos.Socket
+	for _, tg := range tgts {
+		s := protocol.MakeSocket(tg.site.newp())
+		socks = append(socks, s)
+		name := tg.site.pkg + " " + tg.site.fn
+		if tg.send {
+			_ = s.SetOption(mangos.OptionSendDeadline, dl*time.Millisecond)
+			_ = s.SetOption(mangos.OptionWriteQLen, 0)
+		} else {
+			_ = s.SetOption(mangos.OptionRecvDeadline, dl*time.Millisecond)
+		}
+		for i := 0; i < 3; i++ {
+			r := &res{name: name, i: i}
+			all = append(all, r)
+			wg.Add(1)
+			go func(tg tgt, s mangos.Socket, r *res, i int) {
+				defer wg.Done()
+				time.Sleep(time.Duration(i*17) * time.Millisecond)
+				t0 := time.Now()
+				var err error
+				if tg.send {
+					m := mangos.NewMessage(8)
+					m.Header = append(m.Header, tg.site.hdr(1)...)
+					m.Body = append(m.Body, 'x')
+					err = s.SendMsg(m)
+					if err != nil {
+						m.Free()
+					}
+				} else {
+					var m *mangos.Message
+					m, err = s.RecvMsg()
+					if err == nil {
+						m.Free()
+					}
+				}
+				mu.Lock()
+				r.err, r.elapsed, r.done = err, time.Since(t0), true
+				mu.Unlock()
+			}(tg, s, r, i)
+		}
+	}
+	finished := make(chan struct{})
+	go func() { wg.Wait(); close(finished) }()
+	select {
+	case <-finished:
+	case <-time.After((dl + w18slack + 3*17 + 400) * time.Millisecond):
+	}
+	mu.Lock()
+	for _, r := range all {
+		what := "Recv"
+		if strings.HasSuffix(r.name, "SendMsg") {
+			what = "Send"
+		}
+		switch {
+		case !r.done:
+			c.Violate(fmt.Sprintf("%s: with three goroutines blocked in %s on one socket (deadline %d ms each, started 17 ms apart, nothing arriving), call %d had not returned %d ms after its deadline", r.name, what, dl, r.i, w18slack+400),
+				map[string]interface{}{"site": r.name, "deadline_ms": dl, "concurrent_calls": 3})
+		case (r.err == mangos.ErrRecvTimeout || r.err == mangos.ErrSendTimeout) && r.elapsed < (dl-1)*time.Millisecond:
+			c.Violate(fmt.Sprintf("%s: concurrent call %d timed out after %v, before its %d ms deadline", r.name, r.i, r.elapsed, dl), nil)
+		case r.err == nil && !strings.HasSuffix(r.name, "SendMsg"):
+			c.Violate(fmt.Sprintf("%s: concurrent call %d returned a message although nothing was sent", r.name, r.i), nil)
+		case r.elapsed > (dl+w18slack)*time.Millisecond:
+			c.Violate(fmt.Sprintf("%s: concurrent call %d returned only after %v (deadline %d ms)", r.name, r.i, r.elapsed, dl), nil)
+		}
+		c.Class(fmt.Sprintf("concurrent deadlines %s call=%d returned=%v", r.name, r.i, r.done), true)
+	}
+	mu.Unlock()
+	for _, s := range socks {
+		_ = s.Close()
 	}
 }
